@@ -27,6 +27,7 @@ func init() {
 			),
 		},
 		Assumptions: []string{
+			"ZZC03Locate: one culprit (unknown variable / call without value) at every position of lists of 2..K items in 6 contexts, one-line and multi-line",
 			"ZZC03LexSeq: every sequence of up to M characters of an 18-character class alphabet (quote, backslash, newline, letters incl. non-ASCII, digit, dot, blanks, CR, slash, operators, bracket, illegal); ZZC03Tokens: every sequence of up to L lexemes of a 44-lexeme alphabet, glued or separated by a blank, with and without a preamble of declarations",
 			"parser: inputs are all single (thorough: double) token-level edits — truncation at every code point, deletion, duplication, replacement by and insertion of each of 37 fragments — of a corpus of 16 valid programs covering every statement and expression form; builtins: print, len, has, cls, on key/down, err",
 			"lexer: every code point of the input is an unconstrained Unicode scalar value; unicode.IsLetter/IsDigit are the range tables of the Go release the engine is built with, as bit-vector formulas; strconv.Unquote is a nondeterministic stub",
